@@ -482,6 +482,9 @@ class GpRegressor:
         This implementation is based on equations (5.10, 5.11, 5.12) from
         Rasmussen & Williams.
         """
+        # (the hyper-parameters as floats: a single-precision or narrow integer vector would
+        # have the kernels evaluate exp(theta) and its squares in that type)
+        theta = asarray(theta, dtype=float)
         K_xx = self.cov.build_covariance(theta[self.cov_slice]) + self.sig
         mu = self.mean.build_mean(theta[self.mean_slice])
         try:
@@ -504,6 +507,9 @@ class GpRegressor:
         This implementation is based on equations (5.10, 5.11, 5.12, 5.13, 5.14)
         from Rasmussen & Williams.
         """
+        # (the hyper-parameters as floats: a single-precision or narrow integer vector would
+        # have the kernels evaluate exp(theta) and its squares in that type)
+        theta = asarray(theta, dtype=float)
         K_xx, grad_K = self.cov.covariance_and_gradients(theta[self.cov_slice])
         K_xx += self.sig
         mu, grad_mu = self.mean.mean_and_gradients(theta[self.mean_slice])
@@ -541,6 +547,9 @@ class GpRegressor:
 
         This implementation is based on equation (5.8) from Rasmussen & Williams.
         """
+        # (the hyper-parameters as floats: a single-precision or narrow integer vector would
+        # have the kernels evaluate exp(theta) and its squares in that type)
+        theta = asarray(theta, dtype=float)
         K_xx = self.cov.build_covariance(theta[self.cov_slice]) + self.sig
         mu = self.mean.build_mean(theta[self.mean_slice])
         try:  # protection against singular matrix error crash
@@ -558,6 +567,9 @@ class GpRegressor:
 
         This implementation is based on equations (5.8, 5.9) from Rasmussen & Williams.
         """
+        # (the hyper-parameters as floats: a single-precision or narrow integer vector would
+        # have the kernels evaluate exp(theta) and its squares in that type)
+        theta = asarray(theta, dtype=float)
         K_xx, grad_K = self.cov.covariance_and_gradients(theta[self.cov_slice])
         K_xx += self.sig
         mu, grad_mu = self.mean.mean_and_gradients(theta[self.mean_slice])
